@@ -211,8 +211,12 @@ AfterCall(setup, s, entry, subs, o) ==
                  !.lastK = r.lastK,
                  \* a Hamiltonian element evaluates forces (integration); a vetoed one resets the cache
                  !.evals = IF r.ham \/ r.hamfail THEN o.evals ELSE @,
-                 !.calcAtoms = IF r.ham \/ r.hamfail THEN o.calcAtoms ELSE @,
-                 !.calcRes = IF r.ham THEN o.calcRes ELSE IF r.hamfail THEN s.lastRes ELSE @,
+                 \* after a successful integration the calculator holds the final configuration; after a vetoed one it
+                 \* is resynchronised with the restored configuration and the saved results
+                 !.calcAtoms = IF r.ham THEN [p |-> [j \in 1..n |-> atoms[j].pos], c |-> r.cell]
+                               ELSE IF r.hamfail THEN Cfg(s) ELSE @,
+                 !.calcRes = IF r.ham THEN [p |-> [j \in 1..n |-> atoms[j].pos], c |-> r.cell]
+                             ELSE IF r.hamfail THEN s.lastRes ELSE @,
                  !.presel = [m \in DOMAIN s.presel |->
                                IF m \in QRange(entry.elems) THEN clear[m] ELSE s.presel[m]]]
 
